@@ -356,7 +356,8 @@ func RunDAScenario(t *testing.T, c *Chain, sc DAScenario, tmp string) *DAResult 
 			n.p2p(c, it)
 		}
 		// run on until nothing moves any more: the scripted outcomes of the heights the scan still has to pass are
-		// used up (every DA tick starts a round of up to 10 attempts) and three further rounds changed nothing
+		// used up (every DA tick starts a round of up to 10 attempts; a request that hangs takes 30 s), the scan
+		// position is beyond the highest DA height that exists, and [min] further rounds have passed
 		settleScan := func(min int) bool {
 			calm := 0
 			for r := 0; r < 200 && calm < min && !hook.Stopped; r++ {
@@ -368,7 +369,7 @@ func RunDAScenario(t *testing.T, c *Chain, sc DAScenario, tmp string) *DAResult 
 				time.Sleep(7 * time.Second)
 				synctest.Wait()
 				res.Rounds++
-				if da.Pending(n.M.VerifDAHeight()) {
+				if cur := n.M.VerifDAHeight(); da.Pending(cur) || cur <= da.Max {
 					calm = 0
 				} else {
 					calm++
